@@ -17,6 +17,27 @@ STRIP_CASTS = {'LValueToRValue', 'NoOp', 'FunctionToPointerDecay', 'ArrayToPoint
 VALUE_CASTS = {'IntegralCast', 'IntegralToBoolean'}
 
 
+def effective(cond, truth):
+    """normal form of a two-way branch outcome: leading '!' folded into the truth value; a && / || node used as
+    the branch value stands for its right operand (reaching that block fixed the left one)"""
+    if truth not in (True, False) or cond is None:
+        return cond, truth
+    c = cond
+    for _ in range(8):
+        s = c.strip() if c is not None else None
+        if s is None:
+            break
+        if s.k == 'un' and s.op == '!' and s.args and s.args[0] is not None:
+            c = s.args[0]
+            truth = not truth
+            continue
+        if s.k == 'bin' and s.op in ('&&', '||') and len(s.args) == 2 and s.args[1] is not None:
+            c = s.args[1]
+            continue
+        break
+    return c, truth
+
+
 class AnalysisBroken(Exception):
     """anchor vanished / construct cannot be modelled: exit code 2, never a verdict"""
 
@@ -431,7 +452,7 @@ class Function:
                             others.append((l2.get('lo'), l2.get('hi')))
                     out.append((cond, ('default', tuple(others))))
             else:
-                out.append((cond, d[2] == 0))
+                out.append(effective(cond, d[2] == 0))
         return out
 
     # ---- staleness of guards
